@@ -257,12 +257,47 @@ Definition scan_int_field (is_bytes : bool) (s : list N) : fw * list N :=
   | [] => (FNone, s)
   end.
 
+(* flags, width, precision, length modifier and conversion character of one
+   specifier, shared by the regex model and by the model of CPython's parser
+   (PyPercent.py_parse_spec).  [intf] reads `*` or a number; [dot_empty] is what
+   a '.' followed by neither means: nothing for the regex (no match), precision
+   0 for CPython. *)
+Definition spec_tail (intf : list N -> fw * list N) (dot_empty : option fw)
+                     (key : option (list N)) (s2 : list N) : option (cspec * list N) :=
+  let (fl, s3) := span (fun x => mem x flag_chars) s2 in
+  let flags := match fl with [] => None | _ => Some fl end in
+  let (width, s4) := intf s3 in
+  let prec_res :=
+    match s4 with
+    | c :: s5 =>
+        if c =? ch_dot then
+          match intf s5 with
+          | (FNone, r) => match dot_empty with Some p => Some (p, r) | None => None end
+          | pr => Some pr
+          end
+        else Some (FNone, s4)
+    | [] => Some (FNone, s4)
+    end in
+  match prec_res with
+  | None => None
+  | Some (prec, s6) =>
+      let (lm, s7) :=
+        match s6 with
+        | c :: s' => if mem c len_chars then (Some c, s') else (None, s6)
+        | [] => (None, s6)
+        end in
+      match s7 with
+      | c :: s8 => if mem c conv_chars then Some (mk_cspec c key flags width prec lm, s8) else None
+      | [] => None
+      end
+  end.
+
 (* the first alternative of the regex at a position whose first character is
    '%' (already removed): Some (specifier, rest) or None.  The grammar is
    deterministic except for '0' (flag or width), which greedy matching gives to
-   the flags. *)
+   the flags; a '(' or a '.' that cannot start a key / a precision cannot be
+   anything else, so the alternative fails. *)
 Definition try_spec (is_bytes : bool) (s : list N) : option (cspec * list N) :=
-  (* mapping key *)
   let key_res :=
     match s with
     | c :: s1 =>
@@ -270,41 +305,14 @@ Definition try_spec (is_bytes : bool) (s : list N) : option (cspec * list N) :=
           let (k, rest) := span (fun x => negb (x =? ch_rpar)) s1 in
           match k, rest with
           | _ :: _, _ :: rest' => Some (Some k, rest')
-          | _, _ => None                       (* '(' cannot be anything else *)
+          | _, _ => None
           end
         else Some (None, s)
     | [] => Some (None, s)
     end in
   match key_res with
   | None => None
-  | Some (key, s2) =>
-      let (fl, s3) := span (fun x => mem x flag_chars) s2 in
-      let flags := match fl with [] => None | _ => Some fl end in
-      let (width, s4) := scan_int_field is_bytes s3 in
-      let prec_res :=
-        match s4 with
-        | c :: s5 =>
-            if c =? ch_dot then
-              match scan_int_field is_bytes s5 with
-              | (FNone, _) => None                (* '.' cannot be anything else *)
-              | (p, s6) => Some (p, s6)
-              end
-            else Some (FNone, s4)
-        | [] => Some (FNone, s4)
-        end in
-      match prec_res with
-      | None => None
-      | Some (prec, s6) =>
-          let (lm, s7) :=
-            match s6 with
-            | c :: s' => if mem c len_chars then (Some c, s') else (None, s6)
-            | [] => (None, s6)
-            end in
-          match s7 with
-          | c :: s8 => if mem c conv_chars then Some (mk_cspec c key flags width prec lm, s8) else None
-          | [] => None
-          end
-      end
+  | Some (key, s2) => spec_tail (scan_int_field is_bytes) None key s2
   end.
 
 (* `$` without MULTILINE: at the end, or before a final newline *)
